@@ -14,6 +14,14 @@ package mqttproxy
 // accepted CONNACK: #live ids <= cap, and len(Broker.clients) <= cap under the broker's lock.
 // Refused CONNACKs must carry "server unavailable".  At the final quiescent point every slot
 // must have come back (exactly cap fresh clients are accepted, the next one is refused).
+//
+// Failed connection attempts (ids that never come back, clean and persistent sessions): the client
+// resets its TCP connection right after CONNECT, or the connection is a harness-owned one handed
+// to Broker.handleConn whose peer goes away before the CONNACK / whose CONNACK write returns an
+// error (the harness side sees the result of that write, so "the slot was taken and the CONNACK
+// for it failed" is an observation, not a guess).  They run inside the abrupt kinds and, in every
+// case, as a wave of cap+1..2cap+1 attempts against the empty broker after the first quiescent
+// point; at the next quiescent point none of them may still hold a slot.
 
 import (
 	"bytes"
@@ -88,8 +96,36 @@ type c17Mon struct {
 	maxLive    int
 	history    []string
 
+	failed map[string]*c17Failed // ids used by connection attempts that fail on purpose (never reused)
+
 	events  int64
 	aborted int32
+}
+
+// c17Failed describes one connection attempt that fails after CONNECT was sent.
+type c17Failed struct {
+	Stage        string `json:"stage"` // client-reset-before-connack | peer-closed-before-connack | connack-write-error
+	Clean        bool   `json:"cleanSession"`
+	ConnackError bool   `json:"acceptingConnackWriteFailedSeenByHarness"`
+	Refused      bool   `json:"refusedSeenByHarness"`
+}
+
+const (
+	c17FailTCPReset = iota
+	c17FailPeerClosed
+	c17FailWriteError
+)
+
+var c17FailStages = []string{"client-reset-before-connack", "peer-closed-before-connack", "connack-write-error"}
+
+func (m *c17Mon) registerFailed(cid string, mode int, clean bool) *c17Failed {
+	f := &c17Failed{Stage: c17FailStages[mode], Clean: clean}
+	m.mu.Lock()
+	m.seq++
+	m.failed[cid] = f
+	m.note("%d: FAILING-ATTEMPT id=%s stage=%s clean=%v", m.seq, cid, f.Stage, clean)
+	m.mu.Unlock()
+	return f
 }
 
 func (m *c17Mon) note(format string, a ...interface{}) {
@@ -352,19 +388,25 @@ func c17CloseSettled(m *c17Mon, x *c17Conn, how int) {
 	x.nc.Close()
 }
 
-// c17Abrupt: CONNECT with a never reused id, then reset the connection without reading.
-func c17Abrupt(m *c17Mon, addr, cid string, yields int) {
+func c17ConnectPacket(cid string, clean bool) *packets.ConnectPacket {
+	cp := packets.NewControlPacket(packets.Connect).(*packets.ConnectPacket)
+	cp.ProtocolName = "MQTT"
+	cp.ProtocolVersion = 4
+	cp.CleanSession = clean
+	cp.ClientIdentifier = cid
+	return cp
+}
+
+// c17Abrupt: CONNECT with a never reused id, then reset the TCP connection without reading.
+// Whether the broker's CONNACK write fails is up to the kernel and not observable here.
+func c17Abrupt(m *c17Mon, addr, cid string, clean bool, yields int) {
+	m.registerFailed(cid, c17FailTCPReset, clean)
 	nc, err := net.DialTimeout("tcp", addr, 60*time.Second)
 	if err != nil {
 		m.inconclusive("dial failed: " + err.Error())
 		return
 	}
-	cp := packets.NewControlPacket(packets.Connect).(*packets.ConnectPacket)
-	cp.ProtocolName = "MQTT"
-	cp.ProtocolVersion = 4
-	cp.CleanSession = true
-	cp.ClientIdentifier = cid
-	cp.Write(nc)
+	c17ConnectPacket(cid, clean).Write(nc)
 	for k := 0; k < yields; k++ {
 		runtime.Gosched()
 	}
@@ -373,7 +415,102 @@ func c17Abrupt(m *c17Mon, addr, cid string, yields int) {
 	}
 	nc.Close()
 	m.r.Count("abrupt_connect_and_reset", 1)
+	if !clean {
+		m.r.Count("abrupt_connect_and_reset_persistent_session", 1)
+	}
 	atomic.AddInt64(&m.events, 1)
+}
+
+// c17ObsConn is the broker's side of a harness-owned connection.  It records what became of the
+// CONNACK the broker wrote on it (one Write of 4 bytes: 0x20 0x02 flags code) and, when asked
+// to, fails that write the way a broken network does.
+type c17ObsConn struct {
+	net.Conn
+	failConnack bool
+	acceptedErr int32 // an accepting CONNACK (code 0) was written and the write returned an error
+	acceptedOK  int32
+	refusal     int32 // a refusing CONNACK was written (no slot taken)
+}
+
+func (c *c17ObsConn) Write(p []byte) (int, error) {
+	ack := len(p) == 4 && p[0] == 0x20 && p[1] == 0x02
+	var n int
+	var err error
+	if ack && c.failConnack {
+		err = &net.OpError{Op: "write", Net: "pipe", Err: fmt.Errorf("c17: injected write error (connection reset by peer)")}
+	} else {
+		n, err = c.Conn.Write(p)
+	}
+	if ack {
+		switch {
+		case p[3] != packets.Accepted:
+			atomic.StoreInt32(&c.refusal, 1)
+		case err != nil:
+			atomic.StoreInt32(&c.acceptedErr, 1)
+		default:
+			atomic.StoreInt32(&c.acceptedOK, 1)
+		}
+	}
+	return n, err
+}
+
+// c17FailedAttempt runs Broker.handleConn on a harness-owned connection (net.Pipe) whose client
+// sends CONNECT with a never reused id and never reads: in mode c17FailPeerClosed the client end
+// is closed at once (the broker's CONNACK write ends with "closed pipe"), in mode
+// c17FailWriteError the CONNACK write itself returns an error while the peer is still there.
+// Returns after handleConn has returned; true if an ACCEPTING CONNACK was written and failed,
+// i.e. the attempt had been given a slot.
+func c17FailedAttempt(m *c17Mon, mode int, cid string, clean bool) bool {
+	f := m.registerFailed(cid, mode, clean)
+	srv, cli := net.Pipe()
+	oc := &c17ObsConn{Conn: srv, failConnack: mode == c17FailWriteError}
+	done := make(chan struct{})
+	go func() {
+		defer close(done)
+		m.b.handleConn(oc)
+	}()
+	cli.SetWriteDeadline(time.Now().Add(c17WD()))
+	werr := c17ConnectPacket(cid, clean).Write(cli)
+	if mode == c17FailPeerClosed || werr != nil {
+		cli.Close()
+	}
+	atomic.AddInt64(&m.events, 1)
+	ok := m.waitUntil("handleConn to return after a failed connection attempt", func() bool {
+		select {
+		case <-done:
+			return true
+		default:
+			return false
+		}
+	})
+	cli.Close()
+	if werr != nil {
+		m.inconclusive("CONNECT write on the harness-owned connection failed: " + werr.Error())
+		return false
+	}
+	if !ok {
+		return false
+	}
+	m.mu.Lock()
+	f.ConnackError = atomic.LoadInt32(&oc.acceptedErr) != 0
+	f.Refused = atomic.LoadInt32(&oc.refusal) != 0
+	m.mu.Unlock()
+	sess := "persistent_session"
+	if clean {
+		sess = "clean_session"
+	}
+	switch {
+	case f.ConnackError:
+		m.r.Count("failed_attempts_accepting_connack_write_failed_"+sess, 1)
+		m.r.Count("failed_attempts_accepting_connack_write_failed:"+f.Stage, 1)
+	case f.Refused:
+		m.r.Count("failed_attempts_refused_at_cap", 1)
+	case atomic.LoadInt32(&oc.acceptedOK) != 0:
+		// cannot happen with a peer that never reads; would make the attempt an ordinary client
+		m.inconclusive("the CONNACK of a connection attempt that was meant to fail was written successfully")
+	}
+	atomic.AddInt64(&m.events, 1)
+	return f.ConnackError
 }
 
 // ---- case generator
@@ -447,7 +584,7 @@ func c17RunCase(r *kit.Run, cs *c17Case, seed int64) {
 		b.listener.Close()
 	}()
 	addr := fmt.Sprintf("127.0.0.1:%d", b.listener.Addr().(*net.TCPAddr).Port)
-	m := &c17Mon{r: r, cs: cs, b: b, cur: map[string][]*c17Conn{}, cleanEnded: map[string]bool{}}
+	m := &c17Mon{r: r, cs: cs, b: b, cur: map[string][]*c17Conn{}, cleanEnded: map[string]bool{}, failed: map[string]*c17Failed{}}
 
 	idLocks := make([]sync.Mutex, cs.Pool)
 	closeConn := func(x *c17Conn, how int) {
@@ -474,7 +611,14 @@ func c17RunCase(r *kit.Run, cs *c17Case, seed int64) {
 					return
 				}
 				if cs.Abrupt && arng.Intn(5) == 0 {
-					c17Abrupt(m, addr, fmt.Sprintf("abrupt-%d", atomic.AddInt64(&abruptSeq, 1)), arng.Intn(3)*arng.Intn(20))
+					fid := fmt.Sprintf("abrupt-%d", atomic.AddInt64(&abruptSeq, 1))
+					fclean := cs.Clean == "always" || (cs.Clean == "mixed" && arng.Intn(2) == 0)
+					switch mode := []int{c17FailTCPReset, c17FailTCPReset, c17FailPeerClosed, c17FailWriteError}[arng.Intn(4)]; mode {
+					case c17FailTCPReset:
+						c17Abrupt(m, addr, fid, fclean, arng.Intn(3)*arng.Intn(20))
+					default:
+						c17FailedAttempt(m, mode, fid, fclean)
+					}
 					continue
 				}
 				k := arng.Intn(cs.Pool)
@@ -551,46 +695,109 @@ func c17RunCase(r *kit.Run, cs *c17Case, seed int64) {
 	// connection (FIFO accept queue), so all their handleConn goroutines exist by now; when no
 	// goroutine is inside handleConn any more, nothing is left that could still add or remove
 	// an entry of the client map.
-	if bx, code, ok := c17Connect(m, addr, "barrier", false); !ok {
-		return
-	} else if code == packets.Accepted {
-		c17Close(m, bx, 0)
+	barriers := 0
+	quiesce := func(what string) bool {
+		barriers++
+		bx, code, ok := c17Connect(m, addr, fmt.Sprintf("barrier-%d", barriers), false)
+		if !ok {
+			return false
+		}
+		if code == packets.Accepted {
+			c17Close(m, bx, 0)
+		}
+		return m.waitUntil(what, func() bool {
+			time.Sleep(3 * time.Millisecond)
+			return c17HandleConnGoroutines() == 0
+		})
 	}
-	if !m.waitUntil("all handleConn goroutines to end after every client closed", func() bool {
-		time.Sleep(3 * time.Millisecond)
-		return c17HandleConnGoroutines() == 0
-	}) {
+	// leakCheck reports the entries of the client map (all of them belong to finished
+	// connections), one violation per class of connection, and returns how many there are.
+	leaked := map[string]int{}
+	leakCheck := func(at string) {
+		classes := map[string][]string{}
+		var left []string
+		b.RLock()
+		for cid := range b.clients {
+			left = append(left, cid)
+		}
+		b.RUnlock()
+		m.mu.Lock()
+		for _, cid := range left {
+			if leaked[cid] != 0 {
+				continue
+			}
+			leaked[cid] = 1
+			k := "normal-client"
+			if f, ok := m.failed[cid]; ok {
+				k = f.Stage
+				if !f.Clean {
+					k += ":persistent-session"
+				}
+			}
+			classes[k] = append(classes[k], cid)
+		}
+		m.mu.Unlock()
+		r.Count("quiescent_points", 1)
+		for k, ids := range classes {
+			sort.Strings(ids)
+			m.mu.Lock()
+			attempts := map[string]*c17Failed{}
+			for _, cid := range ids {
+				if f, ok := m.failed[cid]; ok {
+					cp := *f
+					attempts[cid] = &cp
+				}
+			}
+			hist := m.tail()
+			m.mu.Unlock()
+			r.Violation("mqtt:slot-never-returned-after-disconnect:"+k, map[string]interface{}{
+				"entries_left_in_broker_map_whose_connection_is_finished": ids, "failed_attempts": attempts,
+				"checked_at": at, "cap": cs.Cap, "case": cs, "history": hist,
+			})
+		}
+	}
+	if !quiesce("all handleConn goroutines to end after every client closed") {
 		return
 	}
 	quiescent = true
-	leaked := map[string]int{}
-	b.RLock()
-	for cid := range b.clients {
-		leaked[cid] = 1
-	}
-	b.RUnlock()
-	r.Count("quiescent_points", 1)
-	if len(leaked) > 0 {
-		kind := "normal-client"
-		ids := []string{}
-		for cid := range leaked {
-			ids = append(ids, cid)
-			if len(cid) > 6 && cid[:6] == "abrupt" {
-				kind = "client-reset-before-connack"
-			}
+	leakCheck("quiescent point after the client workload")
+
+	// ---- wave of failed connection attempts against the (now empty) broker: more than cap of
+	// them, one at a time, each finished (its handleConn returned) before the next starts, so
+	// each of the first cap finds a free slot unless an earlier one kept its slot.
+	quiescent = false
+	wrng := rand.New(rand.NewSource(seed ^ 0x5eedfa11))
+	nfail := cs.Cap + 1 + wrng.Intn(cs.Cap+1)
+	off := wrng.Intn(3)
+	for j := 0; j < nfail; j++ {
+		if atomic.LoadInt32(&m.aborted) != 0 {
+			return
 		}
-		for _, cid := range ids {
-			if !(len(cid) > 6 && cid[:6] == "abrupt") && kind != "normal-client" {
-				kind = "mixed"
+		mode := (j + off) % 3
+		fclean := cs.Clean == "always" || (cs.Clean == "mixed" && wrng.Intn(2) == 0)
+		fid := fmt.Sprintf("failwave-%d", j)
+		if mode == c17FailTCPReset {
+			c17Abrupt(m, addr, fid, fclean, wrng.Intn(3)*wrng.Intn(20))
+			if !quiesce("the handler of a connection that was reset right after CONNECT to end") {
+				return
 			}
+		} else {
+			c17FailedAttempt(m, mode, fid, fclean)
 		}
-		sort.Strings(ids)
-		r.Violation("mqtt:slot-never-returned-after-disconnect:"+kind, map[string]interface{}{
-			"entries_left_in_broker_map_whose_connection_is_finished": ids, "cap": cs.Cap, "case": cs, "history": m.tail(),
-		})
 	}
+	if !quiesce("all handleConn goroutines to end after the wave of failed connection attempts") {
+		return
+	}
+	quiescent = true
+	r.Count("failed_attempt_waves", 1)
+	r.Cover(fmt.Sprintf("failed-connect-wave/clean=%s/cap=%d/n=%d", cs.Clean, cs.Cap, nfail))
+	leakCheck("quiescent point after a wave of failed connection attempts")
 	// exact capacity probe at quiescence
-	free := cs.Cap - len(leaked)
+	// (entries left behind were reported above; the probe then only asks for the slots that are
+	// free right now and leaves the upper end alone, because such an entry may still go away)
+	b.RLock()
+	free := cs.Cap - len(b.clients)
+	b.RUnlock()
 	var probes []*c17Conn
 	for k := 0; k < free+1; k++ {
 		x, code, ok := c17Connect(m, addr, fmt.Sprintf("probe-%d", k), false)
@@ -602,6 +809,9 @@ func c17RunCase(r *kit.Run, cs *c17Case, seed int64) {
 		}
 		if k < free && code != packets.Accepted {
 			r.Violation("mqtt:refused-below-cap-at-quiescence", map[string]interface{}{"accepted_before": k, "cap": cs.Cap, "leaked": len(leaked), "case": cs})
+			break
+		}
+		if k == free && len(leaked) > 0 {
 			break
 		}
 		if k == free {
@@ -620,9 +830,9 @@ func c17RunCase(r *kit.Run, cs *c17Case, seed int64) {
 func TestVerif_C17_MQTTConnCap(t *testing.T) {
 	r := kit.Start(t, "C17")
 	defer r.Finish()
-	r.Rule("one real Broker per case (maxAllowedConnection = cap in {1,2,3,4,6,8}, loopback port) and max(4, 3 x cap) raw MQTT clients, each 3-6 rounds: CONNECT with an id from a pool of cap..2cap ids (so ids collide: takeovers of open connections, also at the cap), clean / non-clean / mixed sessions, connects of one id serialized or free-running, then DISCONNECT / plain close / TCP reset / stay open as a takeover target; some kinds add clients that reset the connection right after CONNECT (unique ids); oracle at every accepted CONNACK: connected clients (accepted, not closed, not superseded) <= cap and len(Broker.clients) <= cap under the broker lock; every refusal carries 'server unavailable'; at the final quiescent point every slot has come back (exactly cap fresh clients accepted, next refused); distinct = (kind, cap, pool, max connected)")
+	r.Rule("one real Broker per case (maxAllowedConnection = cap in {1,2,3,4,6,8}, loopback port) and max(4, 3 x cap) raw MQTT clients, each 3-6 rounds: CONNECT with an id from a pool of cap..2cap ids (so ids collide: takeovers of open connections, also at the cap), clean / non-clean / mixed sessions, connects of one id serialized or free-running, then DISCONNECT / plain close / TCP reset / stay open as a takeover target; some kinds add connection attempts that fail after CONNECT was sent (unique ids that never come back, clean or persistent session as the kind says): TCP reset right after CONNECT, or a harness-owned connection handed to Broker.handleConn whose peer is gone before the CONNACK / whose CONNACK write returns an error (the harness side of that connection sees that an ACCEPTING CONNACK was written and failed, i.e. that a slot had been taken); in every case, after the first quiescent point, a wave of cap+1..2cap+1 such failed attempts of the three sorts runs one at a time against the empty broker and a second quiescent point follows; oracle at every accepted CONNACK: connected clients (accepted, not closed, not superseded) <= cap and len(Broker.clients) <= cap under the broker lock; every refusal carries 'server unavailable'; at both quiescent points (no goroutine inside handleConn) no entry of a finished connection or failed attempt is left in Broker.clients (one signature per sort of connection: normal-client, client-reset-before-connack, peer-closed-before-connack, connack-write-error, with ':persistent-session' for cleanSession=false), and at the last one every slot has come back (exactly cap fresh clients accepted, next refused); distinct = (kind, cap, pool, max connected) and (failed-connect wave: session mode, cap, size)")
 	r.Assume("in the kinds with clean sessions an id has one connection at a time and is reconnected only after the broker closed the previous socket (a connect that overlaps the teardown of an older connection of the same id - also a takeover right after the CONNACK - can crash the process by a double close of Session.done, a defect outside this property); takeovers of open connections are exercised in the non-clean kinds; different ids always run concurrently")
-	r.Assume("keepalive 0 (the broker never times a client out); a client id whose concurrent connects overlap is counted only while all overlapping connections are open; clients that reset before reading CONNACK use ids nobody else uses")
+	r.Assume("keepalive 0 (the broker never times a client out); a client id whose concurrent connects overlap is counted only while all overlapping connections are open; connection attempts that fail before reading the CONNACK use ids nobody else uses; whether the CONNACK write to a TCP connection that was reset really fails is not observable (the harness-owned connections make it observable), so only the latter are required to have been seen taking a slot")
 	n := r.N(150, 6000)
 	for i := 0; i < n; i++ {
 		if !r.Mine(i) {
@@ -636,7 +846,10 @@ func TestVerif_C17_MQTTConnCap(t *testing.T) {
 		}
 		c17RunCase(r, cs, rng.Int63())
 	}
-	for _, k := range []string{"connack_accepted_samples", "samples_at_cap", "refused_server_unavailable", "takeovers_of_open_connection", "quiescent_points", "final_probe_exact_cap", "abrupt_connect_and_reset"} {
+	for _, k := range []string{"connack_accepted_samples", "samples_at_cap", "refused_server_unavailable", "takeovers_of_open_connection", "quiescent_points", "final_probe_exact_cap", "abrupt_connect_and_reset",
+		"abrupt_connect_and_reset_persistent_session", "failed_attempt_waves",
+		"failed_attempts_accepting_connack_write_failed_persistent_session", "failed_attempts_accepting_connack_write_failed_clean_session",
+		"failed_attempts_accepting_connack_write_failed:peer-closed-before-connack", "failed_attempts_accepting_connack_write_failed:connack-write-error"} {
 		r.Require(k, 1)
 	}
 }
